@@ -56,7 +56,7 @@ PROPS = {
         technique="Coq proof (simulation of two parser runs by induction on fuel) + model/implementation correspondence",
         suites=[dict(suite="parse", n_quick=3000, n_thorough=100000,
                      what="sources x {strict,tolerant} x {smart on,off}: tree, EOF token, errors, error flag, final context")],
-        oracle=False,
+        oracle_n_quick=1500, oracle_n_thorough=50000,
         explanation="C13: tolerant_conservative, tolerant_no_separator_errors, smart_neutral proved for all token lists and configurations.",
         open_statements=["C13_tolerant_accepts (two statements on one line, open blocks: complete statements kept)", "C13_smart_as_semicolon"],
         assumptions=["token lists come from the lexer model (C10); the parser never feeds back into the lexer"],
@@ -69,7 +69,7 @@ PROPS = {
         suites=[dict(suite="parse", n_quick=3000, n_thorough=100000, what="sources x 4 modes: tree, EOF token, errors, error flag, final context"),
                 dict(suite="print", n_quick=1500, n_thorough=50000, what="trees x compiler configurations: code, map, panic",
                      projection=[(r" v=\d+ names=.*$", ""), (r" nomap$", "")])],
-        oracle=False,
+        oracle_n_quick=1500, oracle_n_thorough=50000,
         explanation="C11: parse_total, parse_error_iff, parse_lists_ok, parse_error_ranges, parse_clean_compiles.",
         assumptions=["no plugin registers an operator on the end-of-input token (ops_sane): such a plugin makes the real parser loop forever",
                      "input tokens come from the lexer (C10_total: every byte string tokenizes to a list ending in EOF)"],
@@ -81,7 +81,7 @@ PROPS = {
         technique="Coq proof over the writer model + generated write-set lemmas + correspondence; goroutine exploration as search",
         suites=[dict(suite="writer", n_quick=3000, n_thorough=100000, what="random histories of the exported CodeWriter methods: buffer, indent level, mappings"),
                 dict(suite="print", n_quick=1500, n_thorough=50000, what="trees x compiler configurations: code, map, panic")],
-        oracle=False,
+        oracle_n_quick=60, oracle_n_thorough=2000,
         explanation="C14: C14_no_global_writes, C14_printing_is_pure, C14_map_flag_neutral, C14_debug_string; schedules explored only.",
         open_statements=["data-race freedom under goroutine interleavings (explored with -race, cannot be exhibited by a Gallina model)"],
         assumptions=["effects analysis is syntactic (named in the trusted base)"],
@@ -94,7 +94,7 @@ PROPS = {
         suites=[dict(suite="writer", n_quick=3000, n_thorough=100000, what="random histories of the exported CodeWriter methods: buffer, indent level, mappings"),
                 dict(suite="print", n_quick=1500, n_thorough=50000, what="trees x compiler configurations: code, mappings, names, panic"),
                 dict(suite="smap", n_quick=1000, n_thorough=50000, what="SourceMapper histories")],
-        oracle=False,
+        oracle_n_quick=1500, oracle_n_thorough=50000,
         explanation="C08 (writer clauses): C08_writer_position, C08_mapping_at_token_start, C08_sorted.",
         open_statements=["C08_segments_link (segment links identical lexemes through lexing of the output)", "C08_identifiers_named"],
         assumptions=["line/column = (LF count, bytes since last LF); a CR inside written text is outside the theorem (the mapper counts CR as a line break, the lexer does not)"],
@@ -117,7 +117,7 @@ PROPS = {
         level_note="Trusted: Coq kernel, translator xjs2v (context constants, tables), extraction, harness/driver correspondence (icept suite compares the probes' CurrentContext/IsInFunction log and the final context). Modelled not verified: parser control flow incl. the deferred pops.",
         technique="Coq proof (balance invariant by induction on fuel) + model/implementation correspondence",
         suites=[dict(suite="icept", n_quick=3000, n_thorough=100000, what="sources x interceptor lists: tree, errors, final context, probe log (token, CurrentContext, IsInFunction)")],
-        oracle=False,
+        oracle_n_quick=1500, oracle_n_thorough=50000,
         explanation="C16: C16_balanced_stmt, C16_balanced_expr, C16_final_top.",
         open_statements=["C16_reflects_nesting (probe answers equal the syntactic nesting per token): explored by the oracle; false on the unchanged tree for function bodies (KF8)"],
     ),
@@ -128,7 +128,7 @@ PROPS = {
         technique="Coq proof (simulation of interceptor chains by induction on fuel) + model/implementation correspondence",
         suites=[dict(suite="icept", n_quick=3000, n_thorough=100000, what="sources x interceptor lists (0..4 per kind): tree, errors, final context, probe log"),
                 dict(suite="lex", n_quick=1500, n_thorough=50000, what="token stream")],
-        oracle=False,
+        oracle_n_quick=1500, oracle_n_thorough=50000,
         explanation="C04: C04_transparent, C04_tokens_transparent, C04_order_stmt, C04_cep_restored, C04_token_position.",
     ),
     "C07": dict(
@@ -172,3 +172,75 @@ PROPS = {
 }
 
 NOT_CLAIMED = {}
+
+
+# ---------------------------------------------------------------------------
+# Bridge: turn a case line of a correspondence suite (on which model and
+# implementation disagree) into input lines of the property's direct oracle, so
+# that the search for a failing input starts from the disagreeing cases.
+
+def _split_case(suite, line):
+    """returns dict(pcfg, hexsrc, ccfg, sexpr)"""
+    f = line.split(" ")
+    d = dict(pcfg="-", hexsrc=None, ccfg=None, sexpr=None)
+    if suite in ("parse", "icept", "reg") and len(f) >= 2:
+        d["pcfg"], d["hexsrc"] = f[0], f[1]
+    elif suite == "lex" and f:
+        d["hexsrc"] = f[0]
+    elif suite == "print" and len(f) >= 3:
+        d["ccfg"] = f[0]
+        if f[1] == "S" and len(f) >= 4:
+            d["pcfg"], d["hexsrc"] = f[2], f[3]
+        elif f[1] == "T":
+            d["sexpr"] = " ".join(f[2:])
+    return d
+
+
+def _modes(pcfg):
+    items = [] if pcfg == "-" else pcfg.split(";")
+    m = ";".join(x for x in items if x in ("T", "S"))
+    return m or "-"
+
+
+def _c04_seq(pcfg):
+    seq = []
+    for it in ([] if pcfg == "-" else pcfg.split(";")):
+        for pre, kind in (("si:", "s"), ("ei:", "e"), ("ti:", "t")):
+            if it.startswith(pre):
+                for x in it[len(pre):].split(","):
+                    if x and not x.startswith("g"):
+                        seq.append(kind + x)
+    return ",".join(seq[:8]) or "-"
+
+
+def bridge(prop, suite, line):
+    d = _split_case(suite, line)
+    h, out = d["hexsrc"], []
+    all_modes = ["-", "T", "S", "T;S"]
+    if prop == "C10" and suite == "lex":
+        out.append(line)
+    elif prop == "C09" and suite == "smap":
+        out.append(line)
+    elif h is not None:
+        if prop == "C13":
+            out.append("src " + h)
+        elif prop == "C11":
+            out += ["%s %s" % (m, h) for m in all_modes]
+        elif prop == "C16":
+            out.append("m %s %s" % (d["pcfg"], h))
+        elif prop == "C04":
+            out.append("%s %s %s" % (_modes(d["pcfg"]), _c04_seq(d["pcfg"]), h))
+            out.append("%s sp,ep,er,tp %s" % (_modes(d["pcfg"]), h))
+        elif prop == "C03":
+            out.append("SX " + h)
+        elif prop == "C06":
+            out.append("X " + h)
+        elif prop == "C01":
+            out.append("s " + h)
+        elif prop == "C12":
+            out.append("p " + h)
+        elif prop == "C08":
+            out += ["X cm " + h, "X pm:2020:1 " + h, "X pm:09:0 " + h]
+    elif d["sexpr"] is not None and prop == "C03":
+        out.append("T " + d["sexpr"])
+    return out
